@@ -232,7 +232,8 @@ char *igris_f32toa(float32_t f, char *buf, int8_t precision)
     char *p = ptr;
     char *p1;
     char c;
-    int32_t intPart;
+    uint64_t intPart;
+    uint8_t zeros = 0;
 
     if (isinf(f))
     {
@@ -280,9 +281,15 @@ char *igris_f32toa(float32_t f, char *buf, int8_t precision)
     if (precision)
         f += (float32_t)rounders[precision];
 
-    // integer part...
-    intPart = (int32_t)f;
-    f -= intPart;
+    // integer part: exact below 2^64, beyond that the leading digits
+    // followed by zeros
+    while (f >= 18446744073709551616.0f)
+    {
+        f /= 10.0f;
+        zeros++;
+    }
+    intPart = (uint64_t)f;
+    f = zeros ? 0 : f - intPart;
 
     if (!intPart)
         *ptr++ = '0';
@@ -311,6 +318,9 @@ char *igris_f32toa(float32_t f, char *buf, int8_t precision)
 
         // restore end pos
         ptr = p1;
+
+        while (zeros--)
+            *ptr++ = '0';
     }
 
     // decimal part
